@@ -68,11 +68,11 @@ theorem tie_containsPoint (c : Cell) (p : V3) :
       match faceXYZToUV c.face p with
       | none => !(CellFns.Cell_ContainsPoint_cond0 false)
       | some (u, v) => if CellFns.Cell_ContainsPoint_cond0 true then false
-                       else Rect2.containsPoint (Rect2.expandedByMargin c.uv dblEpsilon) u v := by
+                       else Rect2.containsPoint (Rect2.expandedByMargin c.uv containsMargin) u v := by
   unfold containsPoint CellFns.Cell_ContainsPoint_cond0
   split <;> simp_all
 theorem shape_ContainsPoint : CellFns.Cell_ContainsPoint_shape =
-    "var uv r2.Point; var ok bool; if[uv.X, uv.Y, ok = faceXYZToUV(int(c.face), p)] cond0 {return false}; return c.uv.ExpandedByMargin(dblEpsilon).ContainsPoint(uv)" := rfl
+    "var uv r2.Point; var ok bool; if[uv.X, uv.Y, ok = faceXYZToUV(int(c.face), p)] cond0 {return false}; return c.uv.ExpandedByMargin(2 * dblEpsilon).ContainsPoint(uv)" := rfl
 
 /-- `ijLevelToBoundUV`: the upper bounds are `xLo + cellSize`, `yLo + cellSize` -/
 theorem tie_ijLevelToBoundUV (i j level : Nat) :
